@@ -539,6 +539,9 @@ type ParamSpec struct { // contract for a function-typed parameter
 
 type Contract struct {
 	LockOnly bool // only the lock discipline of this function is verified
+	// Concurrent: the function runs concurrently with the event handlers (a status fetcher): every field it reads that is
+	// written anywhere outside constructors must be guarded by a mutex (audit obligation concurrent.read)
+	Concurrent bool
 	Abstract bool // unmodelled instructions / callees are abstracted by havoc
 	Binds    []BindDecl
 	ReadonlyWhen []Clause
@@ -653,7 +656,7 @@ type SpecFile struct {
 var directiveWords = map[string]bool{
 	"func": true, "requires": true, "ensures": true, "modifies": true, "loop": true, "pred": true, "fun": true,
 	"ufun": true, "axiom": true, "lemma": true, "pure": true, "check": true, "immutable": true, "trusted": true,
-	"inline": true, "package": true, "allocates": true, "pureparam": true, "denotes": true, "assert": true, "guarded_by": true, "havocs": true, "opaque": true, "reads": true, "call": true, "readonly": true, "lockonly": true, "abstract": true, "binds": true, "apply": true, "exit": true, "params": true,
+	"inline": true, "package": true, "allocates": true, "pureparam": true, "denotes": true, "assert": true, "guarded_by": true, "havocs": true, "opaque": true, "reads": true, "call": true, "readonly": true, "lockonly": true, "abstract": true, "binds": true, "apply": true, "exit": true, "params": true, "concurrent": true,
 }
 
 // parseSpecText parses the joined text of //@ lines. lines carries (text,lineNo).
@@ -881,6 +884,11 @@ func parseSpecLines(file string, pkg string, lines []specLine) (*SpecFile, error
 			cur.Denotes = e
 			cur.DenotesText = d.text
 			cur.Pure = true
+		case "concurrent":
+			if cur == nil {
+				return nil, errf("concurrent outside func")
+			}
+			cur.Concurrent = true
 		case "lockonly":
 			if cur == nil {
 				return nil, errf("lockonly outside func")
